@@ -289,16 +289,18 @@ fn run_case(kind: &str, fields: Vec<String>) -> Vec<String> {
                 match p.lexer.next() {
                     None => break,
                     Some(Err(e)) => {
-                        out.push(canon_err(&e));
+                        out.push(format!("E {}", err_kind(&e)));
                         break;
                     }
                     Some(Ok(tok)) => {
+                        // Parser.location is private and stays unset on this path, so error
+                        // locations are not meaningful here: only the kind is reported
                         p.current = Some(tok);
                         match p.current_datum() {
                             Ok(Some(d)) => out.push(format!("D {}", canon_datum(&d))),
                             Ok(None) => break,
                             Err(e) => {
-                                out.push(canon_err(&e));
+                                out.push(format!("E {}", err_kind(&e)));
                                 break;
                             }
                         }
